@@ -35,6 +35,7 @@ type Profile struct {
 	AuthSecret  bool
 	MultiTLS    bool // tls blocks may list hosts without a rule
 	Avoid       []avoidRule // input classes of known findings, excluded by construction
+	NoTCPCM     bool        // do not create the ConfigMap based tcp-services (they never update dynamically)
 	Bundles     []annBundle // coherent groups of annotations (a feature switched on as a whole)
 	BundlePct   int
 }
@@ -984,7 +985,7 @@ func (g *G) genRichExtras() {
 			}
 		}
 	}
-	if g.chance("tcpcm", 30) {
+	if !g.P.NoTCPCM && g.chance("tcpcm", 30) {
 		g.add(&world.Obj{Kind: world.KConfigMap, NS: world.CtlNS, Name: "tcp-services", Data: map[string]string{
 			"7100": "a/s1:80", "7101": g.pick("tcpcmval", []string{"b/s2:8000", "a/s9:80", "a/s1:80::PROXY"}),
 		}})
